@@ -41,10 +41,24 @@ fn run_source<S: Operator>(mut src: S, global_id: u64, replicas: u64) -> Result<
     .map_err(|p| crate::kit::panic_text(&p))
 }
 
+/// Long texts are shown as their length and ends.
+fn brief(s: &str) -> String {
+    if s.len() <= 40 {
+        format!("{:?}", s)
+    } else {
+        format!("<{} bytes: {:?}..{:?}>", s.len(), &s[..4], &s[s.len() - 4..])
+    }
+}
+
+fn brief_all(v: &[String]) -> String {
+    format!("[{}]", v.iter().map(|s| brief(s)).collect::<Vec<_>>().join(", "))
+}
+
 fn check_file(content: &[u8], path: &std::path::Path, max_replicas: u64) -> Option<Fail> {
     std::fs::write(path, content).unwrap();
-    let text = String::from_utf8(content.to_vec()).unwrap();
-    let mut expected: Vec<String> = text.split_inclusive('\n').map(|s| s.to_string()).collect();
+    let full = String::from_utf8(content.to_vec()).unwrap();
+    let mut expected: Vec<String> = full.split_inclusive('\n').map(|s| s.to_string()).collect();
+    let text = if full.len() <= 40 { full.clone() } else { format!("with lines {}", brief_all(&expected)) };
     expected.sort();
     for n in 1..=max_replicas {
         let mut got: Vec<String> = vec![];
@@ -70,7 +84,7 @@ fn check_file(content: &[u8], path: &std::path::Path, max_replicas: u64) -> Opti
             };
             return Some(Fail::new(
                 sig,
-                format!("FileSource content {:?} with {n} replicas emitted {:?}, the lines are {:?}", text, got, expected),
+                format!("FileSource content {:?} with {n} replicas emitted {}, the lines are {}", text, brief_all(&got), brief_all(&expected)),
             ));
         }
     }
@@ -119,6 +133,8 @@ fn check_csv(content: &[u8], path: &std::path::Path, headers: bool, max_replicas
     expected.sort();
     std::fs::write(path, content).unwrap();
     let text = String::from_utf8_lossy(content).to_string();
+    let text = if text.len() <= 40 { text } else { format!("with records {}", expected.iter().map(|r| brief_all(r)).collect::<Vec<_>>().join(" ")) };
+    let show = |v: &[Vec<String>]| v.iter().map(|r| brief_all(r)).collect::<Vec<_>>().join(" ");
     for n in 1..=max_replicas {
         let mut got: Vec<Vec<String>> = vec![];
         for g in 0..n {
@@ -137,7 +153,7 @@ fn check_csv(content: &[u8], path: &std::path::Path, headers: bool, max_replicas
         if got != expected {
             return Some(Some(Fail::new(
                 if got.len() > expected.len() { "c15-csv-duplicate" } else if got.len() < expected.len() { "c15-csv-skipped" } else { "c15-csv-partial" },
-                format!("CsvSource headers={headers} content {:?} with {n} replicas emitted {:?}, the records are {:?}", text, got, expected),
+                format!("CsvSource headers={headers} content {:?} with {n} replicas emitted {}, the records are {}", text, show(&got), show(&expected)),
             )));
         }
     }
@@ -256,6 +272,74 @@ fn build(tier: Tier) -> Vec<Scenario> {
                             nontrivial += 1;
                         }
                         fail = check_file(&content, &path, freps);
+                    });
+                }
+                let _ = std::fs::remove_file(&path);
+                (cases, nontrivial, fail)
+            }),
+        ));
+    }
+    // lines / records longer than the readers' internal buffers (8 KiB): 1-3 lines with lengths
+    // around the buffer size, with and without a final terminator
+    const LONG: [usize; 6] = [0, 1, 8191, 8192, 8193, 20000];
+    for unterminated in [false, true] {
+        out.push(loop_scenario(
+            format!("C15/file/long-lines/unterminated{unterminated}"),
+            format!("files of 1-3 lines with lengths from {:?} (last line without terminator: {unterminated}) x 1..=5 replicas, FileSource driven replica by replica", LONG),
+            Arc::new(move || {
+                let path = scratch_file(&format!("long{unterminated}"));
+                let (mut cases, mut nontrivial, mut fail) = (0, 0, None);
+                for l in 1..=3 {
+                    sequences(LONG.len(), l, |h| {
+                        if fail.is_some() {
+                            return;
+                        }
+                        let mut content: Vec<u8> = vec![];
+                        for (i, x) in h.iter().enumerate() {
+                            content.extend(std::iter::repeat(b'a' + i as u8).take(LONG[*x]));
+                            if !(unterminated && i + 1 == h.len()) {
+                                content.push(b'\n');
+                            }
+                        }
+                        cases += 1;
+                        if h.iter().any(|x| LONG[*x] > 8000) {
+                            nontrivial += 1;
+                        }
+                        fail = check_file(&content, &path, 5);
+                    });
+                }
+                let _ = std::fs::remove_file(&path);
+                (cases, nontrivial, fail)
+            }),
+        ));
+    }
+    for headers in [true, false] {
+        out.push(loop_scenario(
+            format!("C15/csv/long-records/headers{headers}"),
+            format!("CSV files of 1-3 records of two fields whose first field has a length from {:?} (header: {headers}) x 1..=5 replicas", &LONG[1..]),
+            Arc::new(move || {
+                let path = scratch_file(&format!("longcsv{headers}"));
+                let (mut cases, mut nontrivial, mut fail) = (0, 0, None);
+                for l in 1..=3 {
+                    sequences(LONG.len() - 1, l, |h| {
+                        if fail.is_some() {
+                            return;
+                        }
+                        let mut content: Vec<u8> = vec![];
+                        if headers {
+                            content.extend(b"h1,h2\n");
+                        }
+                        for (i, x) in h.iter().enumerate() {
+                            content.extend(std::iter::repeat(b'a' + i as u8).take(LONG[*x + 1]));
+                            content.extend(b",7\n");
+                        }
+                        if let Some(r) = check_csv(&content, &path, headers, 5) {
+                            cases += 1;
+                            if h.iter().any(|x| LONG[*x + 1] > 8000) {
+                                nontrivial += 1;
+                            }
+                            fail = r;
+                        }
                     });
                 }
                 let _ = std::fs::remove_file(&path);
